@@ -114,6 +114,33 @@ void exit_contract(int c)
 int fprintf_contract(FILE *f, const char *fmt, ...)
   __CPROVER_requires(1) __CPROVER_assigns() __CPROVER_ensures(1);
 
+/* other wake-up primitives, should the final decrementer use them: wake_one waits for a queued sleeper and wakes
+   exactly one; wake_all / wake_if_any wake those that are queued at that moment -- a waiter that has announced itself
+   in the word but not yet enqueued (the late-waiter race) is NOT among them, so the number woken is anything between
+   0 and the number still owed.  The obligation "wakes exactly the counted waiters" in h_dec then decides. */
+int wake_one_q_contract(myth_sleep_queue_t * q, callback_on_wakeup_t callback, void * arg)
+  __CPROVER_requires(q == JC.sleep_q && callback == 0)
+  __CPROVER_requires(g_cas_dec == 1 && LOW(g_replaced) == g_N - 1)
+  __CPROVER_requires(0 <= g_wake_n && g_wake_n < HI(g_replaced) && "wake_one spins until a sleeper is queued: one must still be owed")
+  __CPROVER_assigns(g_wake_calls, g_wake_n)
+  __CPROVER_ensures(g_wake_calls == 1 && g_wake_n == __CPROVER_old(g_wake_n) + 1);
+int wake_queued_only_contract(myth_sleep_queue_t * q, callback_on_wakeup_t callback, void * arg)
+  __CPROVER_requires(q == JC.sleep_q && callback == 0)
+  __CPROVER_requires(g_cas_dec == 1 && LOW(g_replaced) == g_N - 1)
+  __CPROVER_requires(0 <= g_wake_n && g_wake_n <= HI(g_replaced))
+  __CPROVER_assigns(g_wake_calls, g_wake_n)
+  __CPROVER_ensures(g_wake_calls == 1 && __CPROVER_old(g_wake_n) <= g_wake_n && g_wake_n <= HI(g_replaced));
+int wake_queued_only_contract2(myth_sleep_queue_t * q, callback_on_wakeup_t callback, void * arg)
+  __CPROVER_requires(q == JC.sleep_q && callback == 0)
+  __CPROVER_requires(g_cas_dec == 1 && LOW(g_replaced) == g_N - 1)
+  __CPROVER_requires(0 <= g_wake_n && g_wake_n <= HI(g_replaced))
+  __CPROVER_assigns(g_wake_calls, g_wake_n)
+  __CPROVER_ensures(g_wake_calls == 1 && __CPROVER_old(g_wake_n) <= g_wake_n && g_wake_n <= HI(g_replaced));
+
+int (*keep_wake_all)(myth_sleep_queue_t *, callback_on_wakeup_t, void *) = myth_wake_all_from_queue;
+int (*keep_wake_one)(myth_sleep_queue_t *, callback_on_wakeup_t, void *) = myth_wake_one_from_queue;
+int (*keep_wake_if_any)(myth_sleep_queue_t *, callback_on_wakeup_t, void *) = myth_wake_if_any_from_queue;
+
 int dec_contract(myth_join_counter_t * jc)
   __CPROVER_requires(jc == &JC)
   __CPROVER_assigns(JC.state, g_A, g_tok, g_cas_dec, g_cas_ann, g_replaced, g_wake_calls, g_wake_n)
@@ -162,7 +189,7 @@ static void setup_jc(void) {
   JC.n_threads = g_N; JC.n_threads_bits = g_b; JC.state_mask = g_mask;
   g_A = nondet_long();
   JC.state = g_A;
-  g_cas_dec = 0; g_cas_ann = 0; g_wake_calls = 0; g_block_calls = 0; g_exit_calls = 0; g_replaced = -1; g_wake_n = -1;
+  g_cas_dec = 0; g_cas_ann = 0; g_wake_calls = 0; g_block_calls = 0; g_exit_calls = 0; g_replaced = -1; g_wake_n = 0;
 }
 
 void h_dec(void) {
@@ -174,8 +201,8 @@ void h_dec(void) {
   __CPROVER_assert(g_cas_dec == 1 && g_tok == 0, "dec: exactly one decrement performed");
   __CPROVER_assert(g_cas_ann == 0, "dec: never announces a waiter");
   __CPROVER_assert(JC.state == g_A, "dec: no unannounced (non-atomic) write to the word");
-  __CPROVER_assert((LOW(g_replaced) == g_N - 1) == (g_wake_calls == 1), "dec: wakes iff it performed the N-th decrement");
-  __CPROVER_assert(g_wake_calls == 0 || g_wake_n == HI(g_replaced), "dec: wakes exactly the waiters counted in the word it replaced");
+  __CPROVER_assert(g_wake_calls == 0 || LOW(g_replaced) == g_N - 1, "dec: wakes only if it performed the N-th decrement");
+  __CPROVER_assert(LOW(g_replaced) != g_N - 1 || g_wake_n == HI(g_replaced), "dec: the N-th decrement wakes exactly the waiters counted in the word it replaced");
   __CPROVER_assert(g_block_calls == 0, "dec: does not block");
   VERIF_CANARY();
 }
